@@ -215,6 +215,10 @@ def rdatetime(rnd, secs=None):
         return t
     nine = (t.tm_year, t.tm_mon, t.tm_mday, t.tm_hour, t.tm_min, t.tm_sec,
             rnd.randint(0, 6), rnd.randint(1, 366), rnd.choice([-1, 0, 1]))
+    if k < 0.46 and s < 2**32 - 120:
+        # a leap second as time.strptime('...:59:60') reports it
+        nine = nine[:5] + (rnd.choice([60, 61]),) + nine[6:]
+        return time.struct_time(nine)
     if k < 0.7:
         return time.struct_time(nine)
     # 11-field struct_time as time.localtime() returns it in a non-UTC
@@ -258,6 +262,70 @@ def leaf(rnd, kind=None):
     if kind == 'none':
         return None
     raise ValueError(kind)
+
+
+class SubDict(dict):
+    """A caller's dict subclass."""
+
+
+class SubList(list):
+    """A caller's list subclass."""
+
+
+class SubInt(int):
+    pass
+
+
+class SubStr(str):
+    pass
+
+
+class SubFloat(float):
+    pass
+
+
+def subclassify(v, rnd, p=0.5):
+    """The same value built from subclasses of the built-in types (dict
+    subclasses incl. OrderedDict in NON-sorted insertion order and
+    defaultdict, list / int / str / float subclasses).  Encoders that
+    dispatch with isinstance must treat them like their base types."""
+    import collections
+    if isinstance(v, dict):
+        items = [(k, subclassify(x, rnd, p)) for k, x in v.items()]
+        r = rnd.random()
+        if r < p / 3:
+            items.sort(key=lambda kv: kv[0], reverse=True)
+            return collections.OrderedDict(items)
+        if r < 2 * p / 3:
+            d = collections.defaultdict(list)
+            d.update(items)
+            return d
+        if r < p:
+            return SubDict(items)
+        return dict(items)
+    if isinstance(v, list):
+        items = [subclassify(x, rnd, p) for x in v]
+        return SubList(items) if rnd.random() < p else items
+    if isinstance(v, bool):
+        return v
+    if isinstance(v, int) and rnd.random() < p / 2:
+        return SubInt(v)
+    if isinstance(v, str) and rnd.random() < p / 2:
+        return SubStr(v)
+    if isinstance(v, float) and rnd.random() < p / 2:
+        return SubFloat(v)
+    return v
+
+
+def with_shared_parts(rnd):
+    """A table in which the SAME non-empty dict / list object is reachable
+    more than once (without being its own ancestor)."""
+    d = {'x': leaf(rnd), 'y': [1, 2]}
+    lst = [leaf(rnd), {'q': 1}]
+    return rnd.choice([
+        {'a': d, 'b': d}, {'a': [d], 'b': {'k': d}}, {'l1': lst, 'l2': lst},
+        {'a': d, 'b': {'c': d, 'd': lst}, 'e': lst}, {'arr': [d, d, lst]},
+    ])
 
 
 def value(rnd, depth=0, max_depth=4):
